@@ -271,6 +271,57 @@ R("R33 swc: results built with an explicit seen-test function-free loop", (COMP,
 
     max_social_welfare = None"""))
 
+R("R34 recorded rewrite harmless/rules2-1 (branches merged through a one-element list)", ("PATCH", "/verif/harmless/rules2-1/patch.diff", None))
+R("R35 recorded rewrite harmless/wrap3-1 (list literal, hoisted tail, previous_outcome wrapped afterwards)", ("PATCH", "/verif/harmless/wrap3-1/patch.diff", None))
+MERGED = """        outcomes = outcome if not resoluteness else [outcome]
+        if any(not instance.is_feasible(o) for o in outcomes):
+            return previous_outcome
+        if exhaustive_stop and any(instance.is_exhaustive(o) for o in outcomes):
+            return outcome
+        current_instance.budget_limit += budget_step
+        previous_outcome = outcome
+    return previous_outcome"""
+WHOLE_LOOP = "        if resoluteness:\n" + LOOP_RES + LOOP_IRR
+R("R36 increase: outcomes = outcome if not resoluteness else [outcome]", (EXH, WHOLE_LOOP, MERGED))
+R("R37 increase: flag loops instead of any(...)", (EXH, WHOLE_LOOP, """        allocations = [outcome] if resoluteness else outcome
+        infeasible = False
+        for alloc in allocations:
+            if not instance.is_feasible(alloc):
+                infeasible = True
+                break
+        if infeasible:
+            return previous_outcome
+        exhaustive = False
+        for alloc in allocations:
+            if instance.is_exhaustive(alloc):
+                exhaustive = True
+        if exhaustive_stop and exhaustive:
+            return outcome
+        current_instance.budget_limit += budget_step
+        previous_outcome = outcome
+    return previous_outcome"""))
+R("R38 increase: local lambda helpers", (EXH, "    while current_instance.budget_limit <= budget_bound:\n",
+  "    is_infeasible = lambda a: not instance.is_feasible(a)\n    def is_done(a):\n        return instance.is_exhaustive(a)\n    while current_instance.budget_limit <= budget_bound:\n"),
+  (EXH, WHOLE_LOOP, MERGED.replace("not instance.is_feasible(o)", "is_infeasible(o)").replace("instance.is_exhaustive(o)", "is_done(o)")))
+R("R39 increase: all(...) over the one-element list, tuple instead of list", (EXH, WHOLE_LOOP, """        allocations = (outcome,) if resoluteness else outcome
+        if not all(instance.is_feasible(a) for a in allocations):
+            return previous_outcome
+        if exhaustive_stop and not all(not instance.is_exhaustive(a) for a in allocations):
+            return outcome
+        current_instance.budget_limit += budget_step
+        previous_outcome = outcome
+    return previous_outcome"""))
+R("R40 completion: one-element list literals and a start variable", (EXH, """    budget_allocations = []
+    res = []
+    if initial_budget_allocation is None:
+        budget_allocations.append(BudgetAllocation())
+    else:
+        budget_allocations.append(BudgetAllocation(initial_budget_allocation))
+""", """    start = BudgetAllocation() if initial_budget_allocation is None else BudgetAllocation(initial_budget_allocation)
+    res = list()
+    budget_allocations = [start]
+"""))
+
 # ---------------- breaking edits ----------------
 B("B01 increase: feasibility tested against the increased budget", (EXH, "if not instance.is_feasible(outcome):", "if not current_instance.is_feasible(outcome):"))
 B("B02 increase: < for <= in the while condition", (EXH, "while current_instance.budget_limit <= budget_bound:", "while current_instance.budget_limit < budget_bound:"))
@@ -350,6 +401,12 @@ def main():
         sh("git -C %s checkout -q -- pabutools" % WT)
         ok = True
         for f, old, new in edits:
+            if f == "PATCH":                      # a whole patch file (the recorded harmless rewrites of /verif/harmless)
+                if sh("git -C %s apply %s" % (WT, old)).returncode != 0:
+                    ok = False
+                    print("!! %s: patch does not apply" % name)
+                    break
+                continue
             p = os.path.join(WT, f)
             s = open(p).read()
             if s.count(old) < 1 or (s.count(old) != 1 and "\n" in old):
